@@ -403,6 +403,7 @@ func CheckC15(r *core.Run) {
 		}
 	}
 	for _, part := range []string{"tx", "q"} {
+		runSelfTestN(r, "ApiTrace", "ApiTrace_"+part+".cfg", traces[part], apiMutants())
 		rej := r.Judge(core.JudgeOpts{Module: "ApiTrace", Config: "ApiTrace_" + part + ".cfg", Timeout: 10 * time.Minute, HeapMB: 2048}, traces[part])
 		for _, d := range r.TakeDevs() {
 			name := d.Kind[len("dev:"):]
